@@ -23,7 +23,7 @@ ORACLES = ('store', 'selection', 'listing')
 
 
 def gen_case(seed, tier):
-    return history.gen_history(seed, 'c15', max_users=2, nops=(4, 14), destructive=True, reads=True, filters=True,
+    return history.gen_history(seed, 'c15', max_users=2, nops=(4, 24) if tier == 'thorough' else (4, 14), destructive=True, reads=True, filters=True,
                                p_snapshot=0.4)
 
 
